@@ -234,3 +234,124 @@ def pp_integral(segs, xend, a, b):
         for k, ck in enumerate(c):
             total += ck * ((hi - x0) ** (k + 1) - (lo - x0) ** (k + 1)) / (k + 1)
     return total
+
+
+# ------------------------------------------------------------ histories of functions in one process
+
+def reference_function(knots, values, order=3):
+    """The interpolating spline of the knots (not-a-knot cubic / polygon), constant beyond
+    them, as a plain float callable built from the exact (Fraction) piecewise polynomial:
+    no scipy, no object of the code under test, nothing remembered between calls.  Used as
+    the reference for 'THIS function's own specific yield' where the question is whether a
+    function built late in a process still is the function of its own parameters."""
+    import bisect
+    segs = notaknot_pp(knots, values) if order == 3 else linear_pp(knots, values)
+    xs = [float(x) for x in knots]
+    coef = [[float(c) for c in cs] for _, cs in segs]
+
+    def f(x):
+        x = min(max(float(x), xs[0]), xs[-1])
+        k = min(max(bisect.bisect_right(xs, x) - 1, 0), len(coef) - 1)
+        t, acc = x - xs[k], 0.0
+        for c in reversed(coef[k]):
+            acc = acc * t + c
+        return acc
+    return f
+
+
+def _short(xs, ys, kind):
+    xs = [round(x * 8) / 8 for x in xs]
+    for i in range(1, len(xs)):
+        if xs[i] <= xs[i - 1]:
+            xs[i] = xs[i - 1] + 0.125
+    return dict(kind=kind, knots=[float(x) for x in xs], values=[round(y * 65536) / 65536 for y in ys])
+
+
+def _profile(rng, n):
+    y = rng.uniform(0.05, 0.3)
+    ys = []
+    for _ in range(n):
+        ys.append(y)
+        y += rng.uniform(0.01, 0.15)
+    return ys
+
+
+HISTORY_KINDS = ['same-levels', 'same-levels-ends-differ', 'same-levels-interior-differs', 'same-end-levels',
+                 'same-low-end-level', 'same-high-end-level', 'same-values', 'same-end-values']
+
+
+def history_sequence(rng, kind):
+    """Spline parameter sets to be built, used and discarded one after the other in ONE
+    process, sharing what `kind` names and differing in the rest; the first set comes
+    back at the end (a memo that keeps the first or the last answer differs there too).
+    Knots are multiples of 1/8 mm some 10-200 mm apart, values multiples of 2^-16."""
+    n = rng.randrange(4, 7)
+    start = rng.choice([-291.75, -800.0, -50.25, 0.0, -120.5])
+    xs = [start]
+    for _ in range(n - 1):
+        xs.append(xs[-1] + rng.uniform(12.0, 200.0))
+    ys = _profile(rng, n)
+    base = _short(xs, ys, 'history:base')
+    xs, ys = base['knots'], base['values']
+
+    def other_values(m=n):
+        while True:
+            v = _short(list(range(m)), _profile(rng, m), '')['values']
+            if m != n or all(abs(a - b) > 1e-3 for a, b in zip(v, ys)):
+                return v
+
+    def other_interior(m):
+        cuts = sorted(rng.uniform(0.08, 0.92) for _ in range(m - 2))
+        return [xs[0]] + [xs[0] + (xs[-1] - xs[0]) * c for c in cuts] + [xs[-1]]
+
+    seq = [base]
+    if kind == 'same-levels':
+        seq += [_short(xs, other_values(), kind) for _ in range(2)]
+    elif kind == 'same-levels-ends-differ':
+        seq.append(_short(xs, [ys[0] * 0.25] + ys[1:-1] + [ys[-1] + 0.375], kind))
+        seq.append(_short(xs, [ys[0] + 0.125] + ys[1:], kind))
+        seq.append(_short(xs, ys[:-1] + [ys[-1] * 0.5], kind))
+    elif kind == 'same-levels-interior-differs':
+        seq.append(_short(xs, [ys[0]] + [y + rng.choice([-0.03, 0.04, 0.11]) for y in ys[1:-1]] + [ys[-1]], kind))
+    elif kind == 'same-end-levels':
+        for m in (n, n + 1, max(4, n - 1)):
+            seq.append(_short(other_interior(m), other_values(m), kind))
+    elif kind == 'same-low-end-level':
+        for f in (0.5, 1.75):
+            seq.append(_short([xs[0] + (x - xs[0]) * f for x in xs], other_values(), kind))
+    elif kind == 'same-high-end-level':
+        for f in (0.5, 1.75):
+            seq.append(_short([xs[-1] + (x - xs[-1]) * f for x in xs], other_values(), kind))
+    elif kind == 'same-values':
+        seq.append(_short([x + 37.5 for x in xs], ys, kind))
+        seq.append(_short([xs[0] + (x - xs[0]) * 0.5 for x in xs], ys, kind))
+        seq.append(_short([x - 1000.0 for x in xs], ys, kind))
+    elif kind == 'same-end-values':
+        v = other_values()
+        seq.append(_short([x + 61.25 for x in other_interior(n)], [ys[0]] + v[1:-1] + [ys[-1]], kind))
+        seq.append(_short(xs, [ys[0]] + v[1:-1] + [ys[-1]], kind))
+    else:
+        raise ValueError(kind)
+    seq.append(dict(base, kind='history:base-again'))
+    return seq
+
+
+def history_levels(rng, seq):
+    """Levels shared by every member of the sequence: far and just beyond either end of every
+    member's knot range, the ends themselves, and points inside the first member's range."""
+    los, his = [m['knots'][0] for m in seq], [m['knots'][-1] for m in seq]
+    lo, hi = min(los), max(his)
+    xs = seq[0]['knots']
+    inside = [xs[0] + (xs[-1] - xs[0]) * f for f in (0.31, 0.5, 0.77)] + [xs[len(xs) // 2]]
+    lv = {lo - 250.0, hi + 250.0} | set(inside) | set(los) | set(his)
+    lv |= {x - 0.5 for x in los} | {x + 0.5 for x in his}
+    return sorted(float(round(x * 64) / 64) for x in lv)
+
+
+def history_grid(rng, seq, n=14):
+    """One increasing grid for every member of the sequence, reaching beyond both ends of all."""
+    lo, hi = min(m['knots'][0] for m in seq), max(m['knots'][-1] for m in seq)
+    span = hi - lo
+    a, b = lo - span * rng.uniform(0.1, 0.4), hi + span * rng.uniform(0.1, 0.4)
+    grid = {a + (b - a) * i / (n - 1) for i in range(n)} | {seq[0]['knots'][0], seq[0]['knots'][-1]}
+    return sorted(float(round(x * 16) / 16) for x in grid)
